@@ -199,8 +199,8 @@ def instant_with_offset(d, n, o):
     return x.to_instant() == t and x.offset.seconds == o and x.calendar is HOST and local_total(x) == d * NPD + n + o * NS
 
 
-@lemma({"d": int, "n": int, "o": int, "dn": int}, params=["Coptic", "Julian"], budget=400, per_path=60, tiers=("thorough",),
-       bounds="REAL calendar (full range, 4 days inside): OffsetDateTime +/- Duration(|.| <= 1 day) retains the calendar and the offset")
+@lemma({"d": int, "n": int, "o": int, "dn": int}, params=["Gregorian", "Hijri Civil-Base15"], budget=400, per_path=60, tiers=("thorough",),
+       bounds="REAL calendar (full range, 4 days inside; not Coptic/Julian, which are this module's DayCalendar hosts): OffsetDateTime +/- Duration(|.| <= 1 day) retains the calendar and the offset")
 def odt_calendar_retained_real(P):
     from props import calsetup as cs
     from props import ymdrecord
@@ -266,6 +266,32 @@ def odt_in_fixed_zone(o):
         return (z.calendar is HOST and z.offset.seconds == o and itot(z.to_instant()) == tot and z.zone.get_utc_offset(t).seconds == o
                 and daycal.days_of(z.date) == local // NPD and z.time_of_day.nanosecond_of_day == local % NPD
                 and back.calendar is HOST and back.offset.seconds == o and local_total(back) == local)
+    return h
+
+
+REAL_PAIRS = [[1600, 1, 1, 1600, 1, 1], [2024, 3, 5, 2024, 3, 5], [2400, 12, 29, 2400, 12, 29], [1900, 2, 28, 1900, 2, 28],
+              [2024, 3, 5, 1445, 8, 24], [1, 1, 1, 1, 1, 1]]
+
+
+@lemma({"n1": int, "o1": int, "n2": int, "o2": int}, params=REAL_PAIRS, budget=120, per_path=60,
+       bounds="REAL calendars: a = an ISO date, b = a Hijri Civil-Base15 date (6 concrete pairs; in 5 of them b has the SAME year/month/"
+              "day numbers as a, although the days are centuries apart), every time of day and every offset on both sides: a - b, "
+              "a.minus(b), OffsetDateTime.subtract(a, b) are the difference of the two instants (day numbers from the calendars' own "
+              "date->day code, which C01/C02 decide; symbolic dates in two real calendars at once are solver-unknown)")
+def odt_minus_odt_real(P):
+    from pyoda_time import LocalDate
+    y, m, d, y2, m2, d2 = P
+    da, db = LocalDate(y, m, d, CalendarSystem.iso), LocalDate(y2, m2, d2, CalendarSystem.for_id("Hijri Civil-Base15"))
+    dda, ddb = da._days_since_epoch, db._days_since_epoch
+
+    def h(n1, o1, n2, o2):
+        assume(0 <= n1 < NPD)
+        assume(0 <= n2 < NPD)
+        a = OffsetDateTime(LocalDateTime._ctor(local_date=da, local_time=LocalTime._ctor(nanoseconds=n1)), off(o1))
+        b = OffsetDateTime(LocalDateTime._ctor(local_date=db, local_time=LocalTime._ctor(nanoseconds=n2)), off(o2))
+        want = (dda * NPD + n1 - o1 * NS) - (ddb * NPD + n2 - o2 * NS)
+        r1, r2, r3 = a - b, a.minus(b), OffsetDateTime.subtract(a, b)
+        return r1.to_nanoseconds() == want and r2.to_nanoseconds() == want and r3.to_nanoseconds() == want
     return h
 
 
